@@ -250,6 +250,17 @@ func init() {
 			lit := &hs.FnLit{Params: []hs.Field{{Name: "a", T: hs.TInt}, {Name: "b", T: hs.TStr}}, Ret: hs.TStr, Body: hs.Blk(hs.Bin("+", hs.MCall(hs.V("a"), "to_string"), hs.V("b")))}
 			return mainOnly([]*hs.Func{ap, same}, hs.Println(hs.CallN("apply", hs.V("same"))), hs.Println(hs.CallN("apply", lit)))
 		}},
+		callCase{"equality-of-lists-and-strings-one-of-which-is-a-prefix-of-the-other", func() *hs.Program {
+			eqs := func(a, b hs.Expr) hs.Stmt {
+				return hs.Println(hs.Bin("==", a, b), hs.Bin("==", b, a), hs.Bin("!=", a, b), hs.Bin("!=", b, a))
+			}
+			return mainOnly(nil, hs.LetS("long", hs.List(hs.I(1), hs.I(2), hs.I(3))), hs.LetS("short", hs.List(hs.I(1), hs.I(2))), hs.LetT("empty", hs.TList(hs.TInt), hs.List()),
+				eqs(hs.V("long"), hs.V("short")), eqs(hs.V("long"), hs.V("empty")), eqs(hs.V("short"), hs.V("empty")), eqs(hs.V("long"), hs.List(hs.I(1), hs.I(2), hs.I(3))), eqs(hs.V("long"), hs.List(hs.I(1), hs.I(2), hs.I(4))),
+				eqs(hs.List(hs.V("long")), hs.List(hs.V("short"))), eqs(hs.List(hs.V("short"), hs.V("long")), hs.List(hs.V("short"))),
+				hs.Println(hs.MCall(hs.List(hs.V("long")), "contains", hs.V("short")), hs.MCall(hs.List(hs.V("short")), "contains", hs.V("long")), hs.MCall(hs.List(hs.List(hs.I(1)), hs.V("short")), "contains", hs.V("empty")), hs.MCall(hs.List(hs.V("long"), hs.V("short")), "contains", hs.V("short"))),
+				eqs(hs.S("abc"), hs.S("ab")), eqs(hs.S("ab"), hs.S("")), eqs(hs.List(hs.S("ab")), hs.List(hs.S("ab"), hs.S(""))),
+				hs.Println(&hs.Match{X: hs.V("long"), Arms: []hs.MatchArm{{Lits: []hs.Expr{hs.List(hs.I(1), hs.I(2))}, Body: hs.S("prefix")}, {Lits: []hs.Expr{hs.List(hs.I(1), hs.I(2), hs.I(3))}, Body: hs.S("same")}, {Body: hs.S("other")}}}))
+		}},
 		callCase{"function-as-argument", func() *hs.Program {
 			ft := hs.TFn(hs.TInt, hs.Field{Name: "x", T: hs.TInt})
 			ap := hs.Fn("apply", hs.TInt, hs.Blk(hs.CallN("f", hs.CallN("f", hs.V("v")))), hs.P("f", ft), intP("v"))
